@@ -68,13 +68,24 @@ Init == /\ pars = <<>> /\ varylist = <<>> /\ variable_list = <<>> /\ stepsizes =
         /\ other \in {<<>>} \cup {[n \in S |-> Toks[1]] : S \in {{NameSeq[1]}, Names}}
         /\ other0 = other /\ kind = "none"
 
-AddPar(n, v, vary, cv, st) ==
+AddParAs(evname, n, v, vary, cv, st) ==
   /\ pars' = Put(pars, n, v)
   /\ varylist' = IF vary /\ ~Has(varylist, n) THEN Append(varylist, n) ELSE varylist
   /\ variable_list' = IF cv /\ ~Has(variable_list, n) THEN Append(variable_list, n) ELSE variable_list
   /\ stepsizes' = IF cv /\ ~Has(variable_list, n) THEN Put(stepsizes, n, st) ELSE stepsizes
   /\ ret' = R("ok", 0) /\ UNCHANGED <<file, other>>
-  /\ Log([ev |-> "addpar", n |-> n, v |-> v, vary |-> vary, cv |-> cv, st |-> st])
+  /\ Log([ev |-> evname, n |-> n, v |-> v, vary |-> vary, cv |-> cv, st |-> st])
+AddPar(n, v, vary, cv, st) == AddParAs("addpar", n, v, vary, cv, st)
+(* the par object travels as a string list (tostringlist / fromstringlist, "to send to Java") before it is added: same effect *)
+AddParSL(n, v, vary, cv, st) == AddParAs("addpar_sl", n, v, vary, cv, st)
+
+(* the constructor with keyword arguments d: a new object holding d, nothing varied.  Whether the constructor should coerce
+   numeric-looking text (as set_parameters does) is not something the documented behaviour settles, so the event is only
+   taken with values that coercion leaves alone: both readings then agree *)
+Construct(d) == /\ TypeCheck(d) = d
+                /\ pars' = d /\ varylist' = <<>> /\ variable_list' = <<>> /\ stepsizes' = <<>>
+                /\ ret' = R("ok", 0) /\ UNCHANGED <<file, other>>
+                /\ Log([ev |-> "construct", d |-> d])
 
 Set(n, v) == /\ pars' = Put(pars, n, v) /\ ret' = R("ok", 0)
              /\ UNCHANGED <<varylist, variable_list, stepsizes, file, other>>
@@ -112,6 +123,18 @@ GetVariableValues ==
   /\ UNCHANGED <<pars, varylist, variable_list, stepsizes, file, other>>
   /\ Log([ev |-> "get_variable_values"])
 
+GetVariableStepsizes ==
+  /\ ret' = IF \A i \in 1..Len(varylist) : varylist[i] \in DOMAIN stepsizes
+              THEN R("values", [i \in 1..Len(varylist) |-> stepsizes[varylist[i]]]) ELSE R("KeyError", 0)
+  /\ UNCHANGED <<pars, varylist, variable_list, stepsizes, file, other>>
+  /\ Log([ev |-> "get_variable_stepsizes"])
+GetVariableList == /\ ret' = R("names", variable_list)
+                   /\ UNCHANGED <<pars, varylist, variable_list, stepsizes, file, other>>
+                   /\ Log([ev |-> "get_variable_list"])
+GetParameters == /\ ret' = R("dict", pars)
+                 /\ UNCHANGED <<pars, varylist, variable_list, stepsizes, file, other>>
+                 /\ Log([ev |-> "get_parameters"])
+
 UpdateOther == /\ other' = [n \in DOMAIN other |-> IF n \in DOMAIN pars THEN pars[n] ELSE other[n]]
                /\ ret' = R("ok", 0) /\ UNCHANGED <<pars, varylist, variable_list, stepsizes, file>>
                /\ Log([ev |-> "update_other"])
@@ -144,13 +167,21 @@ LoadFresh == /\ file.exists
              /\ ret' = R("ok", 0) /\ UNCHANGED <<file, other>>
              /\ Log([ev |-> "load_fresh"])
 
+(* the module-level reader: a new object filled from the file *)
+ReadParFile == /\ file.exists
+               /\ pars' = TypeCheck(LoadLines(<<>>, file.lines))
+               /\ varylist' = <<>> /\ variable_list' = <<>> /\ stepsizes' = <<>>
+               /\ ret' = R("ok", 0) /\ UNCHANGED <<file, other>>
+               /\ Log([ev |-> "read_par_file"])
+
 Bools == {TRUE, FALSE}
 SmallSeqs(S) == {<<>>} \cup {<<a>> : a \in S} \cup {<<a, b>> : a \in S, b \in S}
 Dicts == {[n \in S |-> t] : S \in {{NameSeq[1]}, {NameSeq[Len(NameSeq)]}, Names}, t \in TokSet}
          \cup {<<>>}
 
 Kinds == {"addpar", "set", "set_parameters", "get", "set_varylist", "set_variable_values", "get_variable_values",
-          "update_other", "update_yourself", "other_set", "save", "load", "load_fresh"}
+          "update_other", "update_yourself", "other_set", "save", "load", "load_fresh",
+          "addpar_sl", "construct", "get_variable_stepsizes", "get_variable_list", "get_parameters", "read_par_file"}
 OfKind(k) ==
   CASE k = "addpar" -> \E n \in Names, v \in TokSet, vary \in Bools, cv \in Bools : AddPar(n, v, vary, cv, Toks[1])
     [] k = "set" -> \E n \in Names, v \in TokSet : Set(n, v)
@@ -165,6 +196,12 @@ OfKind(k) ==
     [] k = "save" -> Save
     [] k = "load" -> Load
     [] k = "load_fresh" -> LoadFresh
+    [] k = "addpar_sl" -> \E n \in Names, v \in TokSet, vary \in Bools, cv \in Bools : AddParSL(n, v, vary, cv, Toks[Len(Toks)])
+    [] k = "construct" -> \E d \in Dicts : Construct(d)
+    [] k = "get_variable_stepsizes" -> GetVariableStepsizes
+    [] k = "get_variable_list" -> GetVariableList
+    [] k = "get_parameters" -> GetParameters
+    [] k = "read_par_file" -> ReadParFile
 Free == IF kind = "none"
           THEN \E k \in Kinds : kind' = k /\ UNCHANGED <<pars, varylist, variable_list, stepsizes, file, other, ret, hist>>
           ELSE OfKind(kind) /\ kind' = "none"
@@ -182,7 +219,7 @@ TypeOK == /\ DOMAIN pars \subseteq Names \cup {Underscore(n) : n \in Names}
           /\ \A i \in 1..Len(varylist) : varylist[i] \in Names
 (* after load in a fresh object: every readable saved entry is back with its type,
    numeric-looking text became a number, hyphens became underscores *)
-RoundTrip == (Len(hist) > 0 /\ hist[Len(hist)].e.ev = "load_fresh") =>
+RoundTrip == (Len(hist) > 0 /\ hist[Len(hist)].e.ev \in {"load_fresh", "read_par_file"}) =>
    \A i \in 1..Len(file.lines) :
       LET n == file.lines[i][1]  t == file.lines[i][2] IN
         (Readable(t) /\ ~\E j \in (i+1)..Len(file.lines) : Underscore(file.lines[j][1]) = Underscore(n) /\ Readable(file.lines[j][2]))
@@ -191,6 +228,10 @@ RoundTrip == (Len(hist) > 0 /\ hist[Len(hist)].e.ev = "load_fresh") =>
 (* the varied-values list follows varylist order *)
 VariedFollows == (Len(hist) > 0 /\ hist[Len(hist)].e.ev = "get_variable_values" /\ ret.tag = "values") =>
    (Len(ret.val) = Len(varylist) /\ \A i \in 1..Len(varylist) : ret.val[i] = pars[varylist[i]])
+StepsFollow == (Len(hist) > 0 /\ hist[Len(hist)].e.ev = "get_variable_stepsizes" /\ ret.tag = "values") =>
+   (Len(ret.val) = Len(varylist) /\ \A i \in 1..Len(varylist) : ret.val[i] = stepsizes[varylist[i]])
+(* every name that may vary has a step size, and only those *)
+StepsizesDomain == DOMAIN stepsizes = {variable_list[i] : i \in 1..Len(variable_list)}
 (* set_varylist only ever installs names that may vary *)
 VarylistLegal == [][(\E vl \in SmallSeqs(Names) : SetVarylist(vl)) =>
                       (varylist' = varylist \/ \A i \in 1..Len(varylist') : Has(variable_list, varylist'[i]))]_vars
